@@ -21,7 +21,12 @@ wt = "/tmp/seedrun_%s_%d" % (a.name.replace("/", "_"), os.getpid())
 subprocess.run(["git", "-C", "/repo", "worktree", "add", "--detach", wt, "HEAD"], check=True,
                capture_output=True)
 try:
-    subprocess.run(["git", "-C", wt, "apply", d + "/patch.diff"], check=True)
+    # demo on the current (fixed) tree without the fault must pass, with it must fail
+    demo0 = subprocess.run(["/venv/bin/python", d + "/demo.py"], cwd=wt, capture_output=True, timeout=300).returncode
+    patch = d + "/patch_on_fixed.diff" if os.path.exists(d + "/patch_on_fixed.diff") else d + "/patch.diff"
+    subprocess.run(["git", "-C", wt, "apply", patch], check=True)
+    demo1 = subprocess.run(["/venv/bin/python", d + "/demo.py"], cwd=wt, capture_output=True, timeout=300).returncode
+    print("demo exit without fault (current /repo HEAD):", demo0, " with fault:", demo1)
     so = "/repo/tornado/speedups.abi3.so"
     if os.path.exists(so):
         shutil.copy(so, wt + "/tornado/")
@@ -37,7 +42,10 @@ try:
         results.append(dict(prop=prop, tier=a.tier, exit=p.returncode, lines=lines[:12],
                             wall_s=round(time.time() - t0, 1)))
         print(prop, "exit", p.returncode, *lines[:6], sep="\n  ")
-    json.dump(dict(results=results, caught=any(r["exit"] == 1 for r in results)),
+    json.dump(dict(repo_head=subprocess.run(["git", "-C", "/repo", "rev-parse", "--short", "HEAD"], capture_output=True,
+                                            text=True).stdout.strip(),
+                   patch=os.path.basename(patch), demo_exit_without_fault=demo0, demo_exit_with_fault=demo1,
+                   results=results, caught=any(r["exit"] == 1 for r in results)),
               open(d + "/result.json", "w"), indent=1)
 finally:
     subprocess.run(["git", "-C", "/repo", "worktree", "remove", "--force", wt], capture_output=True)
